@@ -148,7 +148,7 @@ def case_trajectories(rec, n_steps):
 def cases(tier):
     th = tier == "thorough"
     out = []
-    hs = CL.histories(3, False) if th else CL.histories(2, False, ops=["set_pos", "set_mom", "set_dir", "copy", "copy_ro", "switch"])
+    hs = CL.histories(3, False) if th else CL.histories(2, False, ops=["set_pos", "set_mom", "set_dir", "copy", "copy_ro", "view_ro", "switch"])
     for sname in CL.SYSTEMS:
         for conv in ("plain", "aux"):
             out.append(Case(f"hist/{sname}/{conv}", run_group, {"probs": [("hist", {"sname": sname, "history": h, "convention": conv}) for h in hs]},
